@@ -14,11 +14,12 @@ SCENARIOS = {
     "mon2": ("monitor", 0, [["mlock", "mtwait", "munlock", "mdone"], ["mlock", "mwait", "munlock", "mdone"], ["msetloop"], ["mset"]]),
     "mon3": ("monitor", 0, [["mlock", "mtwait", "munlock"], ["mlock", "mtwait", "munlock"], ["mset"]]),
     "sig4": ("signal", 0, [["twait"], ["twait"], ["reset", "set"]]),
+    "sig5": ("signal", 0, [["twait"], ["twait"], ["set", "reset"]]),
     "mtx1": ("mutex", 0, [["lock", "lock", "unlock", "tlu", "unlock"], ["tlu", "lock", "unlock"], ["lock", "unlock"]]),
     "sem1": ("sem", 1, [["swait", "ssignal"], ["swait", "ssignal"], ["stwait", "ssignal"]]),
     "sem2": ("sem", 0, [["swait"], ["strywait", "ssignal"], ["stwait", "ssignal"]]),
 }
-OPMAP = {"msetafter1": "msetafter1", "msetafter2": "msetafter2", "msetafter3": "msetafter3", "twait": "twait30", "mtwait": "mtwait20", "swait": "wait", "stwait": "twait40", "strywait": "trywait", "ssignal": "signal"}
+OPMAP = {"setafter1": "setafter1", "setafter2": "setafter2", "msetafter1": "msetafter1", "msetafter2": "msetafter2", "msetafter3": "msetafter3", "twait": "twait30", "mtwait": "mtwait20", "swait": "wait", "stwait": "twait40", "strywait": "trywait", "ssignal": "signal"}
 
 
 def build():
@@ -82,6 +83,11 @@ def rand_programs(rng):
         progs.append(rng.choice([["set"], ["reset", "set"], ["set", "reset", "set"]]))
         if rng.random() < 0.3:
             progs.append(["set"])
+        if rng.random() < 0.35:
+            # all waits timed: any sequence of set / reset terminates - a set() that finds a waiter blocked has to release
+            # it even when a reset() follows immediately (manual-reset event: "set releases all current waiters")
+            progs = [["twait"] * rng.randint(1, 2) for _ in range(w)]
+            progs += [[rng.choice(["set", "reset"]) for _ in range(rng.randint(1, 4))] for _ in range(rng.randint(1, 2))]
         return "signal", rng.randint(0, 1), progs
     if k < 0.9:
         w = rng.randint(1, 3)
@@ -169,6 +175,13 @@ def run(ctx):
                 ("sem", 1, [["stwait", "stwait", "ssignal", "stwait"], ["stwait", "ssignal", "stwait"]]),
                 ("signal", 0, [["twait", "twait", "wait"], ["twait", "wait"], ["set"]]),
                 ("signal", 0, [["twait", "twait"], ["reset", "set"], ["twait", "wait"]]),
+                # set immediately followed by reset: the waiters that were blocked when set() was called are released all the same
+                ("signal", 0, [["twait"], ["set", "reset"]]),
+                ("signal", 0, [["twait", "twait"], ["twait"], ["set", "reset", "set", "reset"]]),
+                ("signal", 0, [["twait"], ["twait"], ["set"], ["reset"]]),
+                # untimed waiters that are blocked for certain when set() is called (setafter<k> waits for k blocked threads)
+                ("signal", 0, [["wait"], ["setafter1", "reset"]]),
+                ("signal", 0, [["wait"], ["wait", "reset"], ["setafter2", "reset"]]),
                 ("monitor", 0, [["mlock", "mtwait", "mtwait", "mtwait", "munlock"], ["mset", "mset"]]),
                 ("monitor", 0, [["mlock", "mtwait", "munlock", "mlock", "mtwait", "munlock"], ["mlock", "mtwait", "munlock"], ["mset", "mset"]]),
                 # two untimed waiters and a setter that keeps setting until both are through (the scheduler's fairness
